@@ -65,7 +65,9 @@ fn check_curve(c: &Curve, mode: GameMode, pts: &[PathControlPoint], l: Option<f6
         return Ok(false);
     }
     let scale = path.iter().fold(scale_of(pts), |m, p| m.max(p.x.abs() as f64).max(p.y.abs() as f64));
-    let eps = 1e-3 * scale.max(1.0);
+    // positions are f32 interpolations between f32 vertices: a few ulps of the coordinate magnitude each
+    // (16 ulps allowed for a pair of them), plus the f64 rounding of progress x distance
+    let eps = 16.0 * 2f64.powi(-23) * scale.max(1.0) + 1e-12 * dist;
     let first = path[0];
     let last = *path.last().unwrap();
     // progress 0 and 1
@@ -200,7 +202,7 @@ fn gen_case(t: &mut Tape) -> (GameMode, Vec<PathControlPoint>, Option<f64>, Vec<
 }
 
 pub fn run(ctx: &mut Ctx) {
-    ctx.rule = "cases are (curve, progress values): curves from the C16/C17 generators (1..10 control points, all coordinate classes incl. duplicates / collinear / zero-length, natural or length-adjusted incl. the trailing-duplicate extra-length case) x ~70 progress values (0, 1, negatives, >1, +-inf, subnormals, 1-ulp neighbours of 0 and 1, 33 even steps, every lengths[i]/dist, random). Oracle: position_at(0/1) = first/last point, clamping is exact, progress_to_dist = clamp(p) x dist, position never moves farther than the arc length between two progress values (eps = 1e-3 x scale), position at each vertex's cumulative length is the vertex, idx_of_dist / interpolate_vertices agree with a linear scan, BorrowedCurve agrees with Curve. NaN progress is outside the stated domain. Non-trivial = curve with >= 3 vertices and dist > 0; distinct by hash(mode, points, L).".into();
+    ctx.rule = "cases are (curve, progress values): curves from the C16/C17 generators (1..10 control points, all coordinate classes incl. duplicates / collinear / zero-length, natural or length-adjusted incl. the trailing-duplicate extra-length case) x ~70 progress values (0, 1, negatives, >1, +-inf, subnormals, 1-ulp neighbours of 0 and 1, 33 even steps, every lengths[i]/dist, random). Oracle: position_at(0/1) = first/last point, clamping is exact, progress_to_dist = clamp(p) x dist, position never moves farther than the arc length between two progress values (eps = 16 f32 ulps of the coordinate scale), position at each vertex's cumulative length is the vertex, idx_of_dist / interpolate_vertices agree with a linear scan, BorrowedCurve agrees with Curve. NaN progress is outside the stated domain. Non-trivial = curve with >= 3 vertices and dist > 0; distinct by hash(mode, points, L).".into();
     ctx.assumptions.push("curves with non-finite vertices (known finding of C16) are skipped here and counted as excluded".into());
     crate::props::replay_regress_generic(ctx, replay);
     let cases = ctx.tier.pick(200_000u64, 2_000_000u64);
